@@ -49,6 +49,10 @@ def cases_for(ctx):
     cases.append({'behaviours': [E, 'hang', E], 'recycle': 3, 'consume': ['sigint', 2]})
     # a host process that ignores SIGCHLD (children are reaped by the kernel, their exit status is never delivered)
     cases.append({'behaviours': [E, E, 'hang', E, E], 'recycle': 3, 'consume': 'full', 'host': 'sigchld_ignored'})
+    # replays whose answer the consumer process cannot read (the worker itself is fine): still a failure verdict, the recycle rate
+    # still holds, nothing is left behind
+    cases.append({'behaviours': ['unpicklable_answer', 'unpicklable_answer', 'unpicklable_answer', E, 'unpicklable_answer', E, E], 'recycle': 2, 'consume': 'full'})
+    cases.append({'behaviours': [E, E, 'unpicklable_answer', E, E, E], 'recycle': 5, 'consume': ['raise', 4]})
     # replayed code starts an asynchronous cassette of its own inside the worker and never closes it
     cases.append({'behaviours': [E, 'start_async_cassette', E, E, E], 'recycle': 2, 'consume': 'full'})
     # runs started through a long-lived studio object and abandoned; a parent descheduled right after forking a worker
